@@ -22,7 +22,7 @@ COMPONENTS = {
     'reference': ['sim/ref_chunker.py'],
 }
 ASSUMPTIONS = ['the glue replaces the pybind11 argument conversion; 20k random next_cut calls agree with the pre-built extension (selftest)']
-PROBES = ['unaligned_max', 'min_eq_max', 'max_lt_8', 'empty_pieces', 'one_byte_pieces', 'piece_eq_max', 'tail_rule_half', 'stream_gt_2max', 'earlier_call_other_key', 'huge_piece_over_64MiB']
+PROBES = ['unaligned_max', 'min_eq_max', 'max_lt_8', 'empty_pieces', 'one_byte_pieces', 'piece_eq_max', 'tail_rule_half', 'stream_gt_2max', 'earlier_call_other_key', 'huge_piece_over_64MiB', 'pieces_are_views_into_one_recycled_buffer']
 TIERS = {'quick': {'budget_s': 45, 'batch': 50}, 'thorough': {'budget_s': 600, 'batch': 100}}
 KNOWN_UNALIGNED_FRACTION = 0.2     # unaligned maxima (once a known finding, fixed since) stay well represented
 
@@ -122,7 +122,7 @@ class _Env:
         self.memory = tail
 
 
-def cut(adapter, data, seg, key, tail, other=None):
+def cut(adapter, data, seg, key, tail, other=None, recycle=False):
     install.install_once()
     saved = install.CTX.env
     install.CTX.env = _Env(tail)
@@ -131,8 +131,14 @@ def cut(adapter, data, seg, key, tail, other=None):
     try:
         def pieces():
             pos = 0
+            scratch = bytearray(max(seg) if seg else 0)
             for c in seg:
-                yield bytearray(data[pos:pos + c]) if c % 2 else data[pos:pos + c]
+                if recycle:
+                    # the ordinary readinto() loop: one scratch buffer, every piece a view into it, overwritten by the next read
+                    scratch[:c] = data[pos:pos + c]
+                    yield memoryview(scratch)[:c]
+                else:
+                    yield bytearray(data[pos:pos + c]) if c % 2 else data[pos:pos + c]
                 pos += c
                 if other is not None:
                     next(other, None)     # unrelated calls on another chunker instance in between
@@ -276,6 +282,8 @@ def run_case(case):
             kbuf[:] = key
             runs.append(cut(adapter, data, seg, kbuf, _Tail('zeros', case['tail_seed'])))
             probes['earlier_call_other_key'] = 1
+            runs.append(cut(adapter, data, seg, key, _Tail('zeros', case['tail_seed']), recycle=True))
+            probes['pieces_are_views_into_one_recycled_buffer'] = 1
         except install.ChunkerNoProgress as e:
             viol.append({'cls': 'no-progress', 'sig': sig, 'msg': f'min={mn} max={mx} len={len(data)} seg={seg[:12]}: chunker does not terminate ({e})'})
             break
@@ -292,7 +300,7 @@ def run_case(case):
             i = next(i for i, r in enumerate(runs) if r != chunks)
             viol.append({'cls': 'depends-on-adjacent-memory-or-earlier-calls', 'sig': sig,
                          'msg': f'min={mn} max={mx} len={len(data)} seg={seg[:12]}: chunk sizes {list(map(len, chunks))[:10]} with zero bytes after the buffer, '
-                                f'{list(map(len, runs[i]))[:10]} with {["zeros", "0xFF", "seeded", "zeros+interleaved", "zeros+a second stream on the same adapter object", "zeros, after a call with another key on the same adapter object", "zeros, after a call with another key held in the same (mutable) key buffer"][i]}'})
+                                f'{list(map(len, runs[i]))[:10]} with {["zeros", "0xFF", "seeded", "zeros+interleaved", "zeros+a second stream on the same adapter object", "zeros, after a call with another key on the same adapter object", "zeros, after a call with another key held in the same (mutable) key buffer", "zeros, pieces handed over as views into one recycled buffer"][i]}'})
             break
         pos = 0
         bad = None
